@@ -161,14 +161,16 @@ func PrepareC15(ctx *Ctx) (*Prepared, error) {
 		} else {
 			funcs = append(funcs, fmt.Sprintf("VH_C15L_%02d", b))
 		}
-		funcs = append(funcs, fmt.Sprintf("VH_C15F_%02d", b))
+		for sh := 0; b > 0 && sh < 4; sh++ {
+			funcs = append(funcs, fmt.Sprintf("VH_C15F_%02d_%d", b, sh))
+		}
 	}
 	funcs = append(funcs, "VH_C15O_00")
 	p := prepareTextFuncs(ctx, "C15", funcs, "")
 	p.Bounds = map[string]interface{}{
 		"scope":    "text -> File half only: the value ReadFile stores for enum members, [flags] expressions and opcodes. The emission half (formatting of those values into Go source and the meaning of the emitted literals) is string templating judged by the Go compiler and is outside this check.",
 		"literals": "decimal with 1-3 (thorough 1-5) symbolic digits, hex with 1-2 (thorough 1-4) symbolic digits in either case, negative decimal for signed bases; all 8 base types; values assumed representable",
-		"flags":    "fully parenthesised expressions of up to two operators out of {|, &, <<, >>} over symbolic one-digit operands and earlier members, 4 shapes, 7 base types; intermediate and final values assumed representable, shift counts < 8",
+		"flags":    "fully parenthesised expressions of up to two operators out of {|, &, <<, >>} over literal operands with one symbolic digit (0x0-0xf in either case, 10-19) and earlier members, 4 shapes, 7 base types; intermediate and final values assumed representable, shift counts < 8",
 		"opcodes":  "4 symbolic printable characters; 4 symbolic decimal digits; 3 symbolic hex digits; on struct, message and union",
 		"outside":  "unparenthesised mixed-operator expressions (the property fixes no precedence), longer literals, consts (their text is carried verbatim; covered by C11)",
 	}
